@@ -127,6 +127,14 @@ EXTRA = [
     {"type": "record", "name": "HoldsAllDefaults", "fields": [{"name": "u", "type": [
         {"type": "record", "name": "Created", "fields": [{"name": "note", "type": "string", "default": ""}]},
         {"type": "record", "name": "Deleted", "fields": [{"name": "reason", "type": "string", "default": ""}]}]}]},
+    # a named type carrying a logical type, used again by name (field, union branch, array items)
+    {"type": "record", "name": "Invoice", "fields": [
+        {"name": "amount", "type": {"type": "fixed", "name": "Amount", "size": 8, "logicalType": "decimal", "precision": 12, "scale": 2}},
+        {"name": "tax", "type": "Amount"}, {"name": "tip", "type": ["null", "Amount"]}, {"name": "parts", "type": {"type": "array", "items": "Amount"}},
+        {"name": "day", "type": {"type": "int", "logicalType": "date"}}]},
+    # a union inside a record that is itself reached through an un-hinted union (options must reach the inner union)
+    {"type": "record", "name": "Doc", "fields": [{"name": "body", "type": ["null", {"type": "record", "name": "Body", "fields": [
+        {"name": "tags", "type": ["string", {"type": "array", "items": "string"}]}, {"name": "m", "type": ["null", {"type": "map", "values": ["int", {"type": "array", "items": "int"}]}], "default": None}]}]}]},
     {"type": "record", "name": "BytesDefaults", "fields": [
         {"name": "k", "type": "int"}, {"name": "b", "type": "bytes", "default": "\u00ff\u0001"},
         {"name": "f", "type": {"type": "fixed", "name": "F2", "size": 2}, "default": "ab"}]},
@@ -277,6 +285,10 @@ def run_unit(i, tier):
         conforming += [{}, {"-type": "AllDefaults2"}, {"-type": "AllDefaults"}, {"note": "x"}, {"reason": "y"}]
     if isinstance(raw, dict) and raw.get("name") == "HoldsAllDefaults":
         conforming += [{"u": {}}, {"u": {"-type": "Deleted"}}, {"u": {"-type": "Created"}}, {"u": ("Deleted", {})}]
+    if isinstance(raw, dict) and raw.get("name") == "Doc":
+        # tuples that are plain sequences when tuple notation is disabled (and unknown hints when it is not)
+        conforming += [{"body": {"tags": ("a", "b")}}, {"body": {"tags": ("only",)}}, {"body": {"tags": ("a", "b", "c")}}, {"body": {"tags": "s", "m": {"k": (1, 2)}}},
+                       {"body": {"tags": ("string", "x")}}, {"body": {"tags": ("array", ["x"])}}]
     for d in conforming:
         check(fa, res, raw, parsed, node, defs, d, seen, ws)
     ms = mutants(node, defs, base)
